@@ -163,6 +163,17 @@ class PosInterp:
         cands = [c for c in self.mod.classes if c.name == name]
         return cands[0] if cands else self.p.cls(name)
 
+    def class_constant(self, cls: str, name: str) -> Optional[ast.AST]:
+        """the expression of a class-level constant of the one non-test repository class called `cls` (None when there is no such class or constant)"""
+        cands = [c for c in self.p.class_by_name.get(cls, []) if not c.module.name.endswith('_test')]
+        if len(cands) != 1:
+            hand = [c for c in cands if '.generated' not in c.module.name]
+            if len(hand) != 1:
+                return None
+            cands = hand
+        k = self.p.class_const(cands[0], name)
+        return k if isinstance(k, (ast.Constant, ast.BinOp, ast.JoinedStr, ast.Tuple)) else None
+
     def is_dataclass(self, cls: str) -> bool:
         ci = self._cls(cls)
         return any('dataclass' in norm(d) for d in ci.node.decorator_list)
@@ -204,6 +215,20 @@ class PosInterp:
 
     # -- calls -----------------------------------------------------------------------
     def call_function(self, fn: FuncInfo, args: list, kwargs: dict) -> Any:
+        if fn.module is not self.mod and fn.cls is None and fn.parent is None and fn.module is not None and self._foreign_ok:
+            # a module-level function of another module: its globals are those of its own module for the duration of the call
+            prev = (self.mod, self.funcs)
+            self.mod = fn.module
+            self.funcs = {f.qualname: f for f in self.p.functions_in(fn.module) if f.kind != 'overload' and f.parent is None}
+            try:
+                return self._call_function(fn, args, kwargs)
+            finally:
+                self.mod, self.funcs = prev
+        return self._call_function(fn, args, kwargs)
+
+    _foreign_ok = True
+
+    def _call_function(self, fn: FuncInfo, args: list, kwargs: dict) -> Any:
         a = fn.node.args
         names = [x.arg for x in [*a.posonlyargs, *a.args]]
         env: dict[str, Any] = dict(zip(names, args))
@@ -605,6 +630,8 @@ class PosInterp:
             return list(v)
         if isinstance(v, dict):
             return list(v)
+        if isinstance(v, (set, frozenset)):
+            return sorted(v, key=repr)          # a concrete set: some order (python's own is unspecified too)
         raise self.err(node, f'iteration over {v!r}')
 
     def comprehension(self, e: Any, env: dict) -> list:
@@ -747,6 +774,9 @@ class PosInterp:
         if isinstance(op, ast.Sub):
             return add(a, b, -1)
         if isinstance(op, ast.Mult):
+            if (isinstance(a, (str, list, tuple)) and isinstance(b, int) and not isinstance(b, bool)) or \
+                    (isinstance(b, (str, list, tuple)) and isinstance(a, int) and not isinstance(a, bool)):
+                return a * b                  # repetition of a concrete text / sequence
             return mul(a, b)
         if isinstance(op, ast.FloorDiv) and isinstance(a, int) and isinstance(b, int):
             return a // b
@@ -816,7 +846,9 @@ class PosInterp:
             for st in self.mod.tree.body:
                 if isinstance(st, ast.Assign) and len(st.targets) == 1 and isinstance(st.targets[0], ast.Name) and st.targets[0].id == e.id:
                     v_ = st.value
-                    if isinstance(v_, ast.Call) and norm(v_.func) == 're.compile' and v_.args and isinstance(v_.args[0], ast.Constant) \
+                    re_names = {(al.asname or al.name) for im in self.mod.tree.body if isinstance(im, ast.Import) for al in im.names if al.name == 're'}
+                    if isinstance(v_, ast.Call) and isinstance(v_.func, ast.Attribute) and v_.func.attr == 'compile' and isinstance(v_.func.value, ast.Name) \
+                            and v_.func.value.id in re_names and v_.args and isinstance(v_.args[0], ast.Constant) \
                             and isinstance(v_.args[0].value, str):
                         import re as _re
                         fl_ = 0
@@ -826,6 +858,15 @@ class PosInterp:
                         return _re.compile(v_.args[0].value, fl_)
                     return self.expr(st.value, {})          # module constant (_LOAD_FACTOR and friends)
             sym_ = getattr(self.mod, 'symbols', {}).get(e.id)
+            if type(sym_).__name__ == 'FuncInfo' and sym_.kind != 'overload':
+                return sym_                                          # a function imported from another module of the repository
+            if sym_ is None or type(sym_).__name__ not in ('ClassInfo', 'FuncInfo'):
+                try:
+                    r_ = self.p.resolve_expr(self.mod, e)          # a name imported from another module of the repository
+                except Exception:
+                    r_ = None
+                if type(r_).__name__ == 'FuncInfo' and r_.kind != 'overload':
+                    return r_
             if type(sym_).__name__ == 'ClassInfo':
                 return ClassRef(e.id)                       # a class of the repository, named in an isinstance test or a constructor call
             raise self.err(e, 'name')
@@ -844,11 +885,17 @@ class PosInterp:
                     if getattr(m, 'kind', None) == 'getter':
                         return self.call_function(m, [base], {})          # a property of the object's class: read it
                     return Bound(base, m)
+                k_ = self.class_constant(base.cls, e.attr)
+                if k_ is not None:
+                    return self.expr(k_, {})          # a class-level constant (RULE, DEFAULT ...) of the repository class the object stands for
                 raise self.err(e, f'attribute {e.attr} of {base.cls}')
             if isinstance(base, ClassRef):
                 m = self.method(base.name, e.attr)
                 if m is not None:
                     return Bound(base, m) if m.kind == 'classmethod' else m
+                k_ = self.class_constant(base.name, e.attr)
+                if k_ is not None:
+                    return self.expr(k_, {})
             if isinstance(base, (range, slice)) and e.attr in ('start', 'stop', 'step'):
                 return getattr(base, e.attr)
             if type(base).__name__ == 'Pattern' and e.attr in ('findall', 'finditer', 'fullmatch', 'match', 'search', 'split', 'sub', 'pattern', 'flags'):
@@ -939,6 +986,11 @@ class PosInterp:
         if isinstance(e, ast.YieldFrom):
             self._yields[-1].extend(self.iter_of(self.expr(e.value, env), e))
             return None
+        if isinstance(e, ast.Set):
+            vals_ = [self.expr(x, env) for x in e.elts]
+            if not all(isinstance(v_, (str, int, tuple, frozenset)) or v_ is None for v_ in vals_):
+                raise self.err(e, 'set display of abstract values')
+            return set(vals_)
         if isinstance(e, (ast.Tuple, ast.List)):
             items: list = []
             for x in e.elts:
